@@ -20,6 +20,7 @@ GLOBAL_ASSUMPTIONS = [
 
 # contracts used in place of a body that no unit proves: why they are assumed
 ASSUMED_CONTRACTS = {
+    "verif_fmt": "libc snprintf: writes at most `size` bytes into the destination and NUL-terminates it",
 }
 
 NOT_APPLICABLE = {
@@ -50,6 +51,7 @@ def U(**kw):
     return kw
 
 
+PKT_LINK = ["rtrlib/lib/convert_byte_order.c", "rtrlib/lib/ipv4.c", "rtrlib/lib/ipv6.c", "rtrlib/lib/utils.c"]
 IP_SRCS = ["rtrlib/lib/ip.c", "rtrlib/lib/ipv4.c", "rtrlib/lib/ipv6.c", "rtrlib/lib/utils.c"]
 
 # loop contract of the while loop of trie_lookup, over the spine model (units/trie_spine.h)
@@ -64,7 +66,32 @@ LOOKUP_LOOP = dict(
     decreases="g_n - *lvl",
 )
 
+RECV_ALL_LOOP = dict(
+    function="tr_recv_all", fingerprint=r"while \(total_recv < len\)", macro_headers=[],
+    symbols=["total_recv", "len"], globals=["g_xfer_count", "g_xfer_ok", "g_xfer_len"],
+    assigns="total_recv, g_xfer_count, g_xfer_ok",
+    invariants="total_recv <= len && g_xfer_count == total_recv && g_xfer_ok && g_xfer_len == len",
+    decreases="len - total_recv")
+SEND_ALL_LOOP = dict(
+    function="tr_send_all", fingerprint=r"while \(total_send < len\)", macro_headers=[],
+    symbols=["total_send", "len"], globals=["g_xfer_count", "g_xfer_ok", "g_xfer_len"],
+    assigns="total_send, g_xfer_count, g_xfer_ok",
+    invariants="total_send <= len && g_xfer_count == total_send && g_xfer_ok && g_xfer_len == len",
+    decreases="len - total_send")
+
 UNITS = [
+    # ------------------------------------------------------------------ receive path (C04, C13, C14)
+    U(id="receive_pdu", props=["C04", "C13", "C14"], file="units/receive.c", entry="h_receive_pdu",
+      enforce=["rtr_receive_pdu"], kind="complete", native=None, timeout=1800, link=PKT_LINK, replace=["verif_fmt"],
+      cbmc_flags=["--sat-solver", "cadical"],
+      stubs=["tr_recv_all", "tr_send_all", "lrtr_dbg", "pthread_setcancelstate"]),
+    # ------------------------------------------------------------------ transport (C04, C14)
+    U(id="tr_recv_all", props=["C04"], file="units/transport.c", entry="h_tr_recv_all", defines=["H_ENTRY=h_tr_recv_all"],
+      enforce=["tr_recv_all"], loops=[RECV_ALL_LOOP], kind="unbounded",
+      need_classes=["postcondition", "loop_invariant_step", "loop_decreases"], native=None),
+    U(id="tr_send_all", props=["C14"], file="units/transport.c", entry="h_tr_send_all", defines=["H_ENTRY=h_tr_send_all"],
+      enforce=["tr_send_all"], loops=[SEND_ALL_LOOP], kind="unbounded",
+      need_classes=["postcondition", "loop_invariant_step", "loop_decreases"], native=None),
     # ------------------------------------------------------------------ L0 bits (C01, C04)
     U(id="l0_get_bits", props=["C01", "C04"], file="units/l0_bits.c", entry="h_l0_get_bits", defines=["H_ENTRY=h_l0_get_bits"],
       enforce=["lrtr_get_bits"], kind="complete", native={}),
